@@ -645,6 +645,19 @@ var misfits = []misfit{
 
 var numericMisfit = map[string]bool{"300": true, "-1": true, "maxint64": true, "1.5": true, "1e300": true, "byte(9)": true}
 
+var containerMisfit, opaqueMisfit = map[string]bool{}, map[string]bool{}
+
+// misfitOther is a struct type that no target of the search has.
+type misfitOther struct{ N int }
+
+func numericElem(t reflect.Type) bool {
+	switch t.Kind() {
+	case reflect.Slice, reflect.Array, reflect.Map, reflect.Pointer:
+		return isNumericKind(t.Elem().Kind())
+	}
+	return false
+}
+
 // The numbers at the edges of every Go integer and float type, as script ints and as script floats: the last
 // one that fits and the first one that does not, at both ends of int8 .. int64, uint8 .. uint64, the exact
 // integer range of float32 and float64, and the largest float32.
@@ -665,6 +678,38 @@ func init() {
 				add(fmt.Sprintf("int(%d)", int64(f)), object.NewInt(int64(f)))
 			}
 		}
+	}
+	// numbers inside containers: what does not fit the element type must not be cut to size there either
+	cadd := func(name string, o object.Object) {
+		misfits = append(misfits, misfit{name, func() object.Object { return o }})
+		containerMisfit[name] = true
+	}
+	for _, n := range []struct {
+		name string
+		o    object.Object
+	}{{"300", object.NewInt(300)}, {"-1", object.NewInt(-1)}, {"1.5", object.NewFloat(1.5)}, {"2^63", object.NewFloat(9223372036854775808.0)}, {"70000", object.NewInt(70000)}} {
+		cadd("["+n.name+"]", list(n.o))
+		cadd("[1,"+n.name+",2]", list(object.NewInt(1), n.o, object.NewInt(2)))
+		cadd("{k:"+n.name+"}", object.NewMap(map[string]object.Object{"k": n.o}))
+	}
+	// values that have no Go counterpart at all, and proxies of Go values of another type than any target
+	for _, src := range []struct{ name, expr string }{{"function", "func(x) { return x }"}, {"builtin", "len"}, {"module", "math"}, {"partial", "func() { defer len([1]) }"}} {
+		v, err := risor.Eval(context.Background(), src.expr)
+		if err != nil {
+			panic(err)
+		}
+		misfits = append(misfits, misfit{src.name, func() object.Object { return v }})
+		opaqueMisfit[src.name] = true
+	}
+	for _, px := range []struct {
+		name string
+		v    any
+	}{{"proxy(*other)", &misfitOther{N: 5}}} {
+		pv, err := object.NewProxy(px.v)
+		if err != nil {
+			panic(err)
+		}
+		misfits = append(misfits, misfit{px.name, func() object.Object { return pv }})
 	}
 	add("int(minint64)", object.NewInt(math.MinInt64))
 	add("float(2^63-1024)", object.NewFloat(9223372036854774784.0)) // the largest float below 2^63
@@ -709,6 +754,12 @@ func (a *acc) routeMisfit(s *spec, m *misfit, which string) {
 	// a number written to a numeric field, or passed to Echo, comes back as the number it was - or the write
 	// is refused; what does not fit (300 into an int8, 1.5 into an int, 1e300 into a float32) must not be cut to size
 	numeric := numericMisfit[m.name] && isNumericKind(s.t.Kind())
+	// the same for a number behind a pointer and for numbers in a list or map written to a container of numbers,
+	// and for a value that has no Go counterpart (a function, a module): accepted means it reads back as itself
+	if (numericMisfit[m.name] && m.name != "float(NaN)" && s.t.Kind() == reflect.Pointer && isNumericKind(s.t.Elem().Kind()) && s.t.Elem().Kind() != reflect.Float32) ||
+		(containerMisfit[m.name] && numericElem(s.t) && s.t.Kind() != reflect.Pointer && s.t.Kind() != reflect.Array && s.t.Elem().Kind() != reflect.Float32) || opaqueMisfit[m.name] {
+		numeric = true
+	}
 	// q is what has to come back: p itself, except that a float target holds the nearest float of its size
 	// (rounding is how Go converts, 0.1 has no float32 either); a finite number that no float of that size is
 	// near to (beyond the largest float32) stays p, which nothing accepted can equal
